@@ -41,4 +41,40 @@ func vFourP(i int) uint64 {
 }
 
 func vSwap(a, b *Bignum25519, flag uint64) { SwapConditional(a, b, flag) }
-const vMulExtra = 1
+
+// class limits of the 10x25.5 layout (units of 1/64 of the nominal limb size)
+const (
+	vSAddIn     = 200
+	vSSubA      = 200
+	vSSubB      = 127
+	vSSubBAfter = 255
+	vSMulIn     = 194 // Mul operands
+	vSSquareIn  = 132 // Square / SquareTimes operand
+	vSContract  = 200
+	vSReduced   = 65
+	vSSubOut    = 129 // Sub carries limbs 0..3 only: out <= a + 2p + carry
+	vSSubAfterOut = 0 // SubAfterBasic carries fully on this layout: output reduced
+	vAddAfterCarries = true
+)
+
+// operand class pairs (first argument, second argument) for which Mul is proved on this layout: the pairs the
+// group law produces (sum of two reduced values: 130 everywhere; output of Sub: limbs 0..3 carried, 4..9 up to 194)
+var vMulPairs = [][2][vNLimbs]int{
+	{{130, 130, 130, 130, 130, 130, 130, 130, 130, 130}, {130, 130, 130, 130, 130, 130, 130, 130, 130, 130}},
+	{{65, 65, 65, 65, 194, 194, 194, 194, 194, 194}, {65, 65, 65, 65, 194, 194, 194, 194, 194, 194}},
+	{{65, 65, 65, 65, 194, 194, 194, 194, 194, 194}, {130, 130, 130, 130, 130, 130, 130, 130, 130, 130}},
+	{{130, 130, 130, 130, 130, 130, 130, 130, 130, 130}, {65, 65, 65, 65, 194, 194, 194, 194, 194, 194}},
+}
+
+// Sub carries limbs 0..3 only: those come out below 2^bits + carry, the rest are at most a_i + 2p_i + carry
+func vSubOutOK(out, a *Bignum25519) bool {
+	ok := true
+	for i := 0; i < vNLimbs; i++ {
+		if i < 4 {
+			ok = ok && uint64(out[i]) < uint64(1)<<uint(vLimbBits(i))
+		} else {
+			ok = ok && uint64(out[i]) <= uint64(a[i])+vTwoP(i)+8
+		}
+	}
+	return ok
+}
